@@ -394,3 +394,25 @@ Proof.
     pose proof (filter_subset_all proj lb ub tol_mesh (py_prefix (xmi + 1) X) (violated_of inv cons) U) as [H4 _].
     split; [exact H1|]. split; [exact H3 | exact H4].
 Qed.
+
+(* ------------------------------------------------------------------------------------------ *)
+(* C01: the rows whose images the source hands to the user's constraint function               *)
+
+Lemma constraint_points_in_box : forall (XT : Type) (inv : qrow -> XT) U lb ub tol_mesh X xmi proj cons,
+  (proj = true -> box_ok lb ub) ->
+  let V := src_stage3 tol_mesh X xmi (src_stage2 (src_stage1 U lb ub proj)) in
+  Forall (in_box lb ub) V /\
+  src_filter inv U lb ub tol_mesh X xmi proj cons = src_stage4 inv cons V /\
+  (forall c, cons = Some c -> src_stage4 inv cons V = take_mask V (vals_cmp CLe (map c (map inv V)) (0 # 1))) /\
+  (forall r, In r (src_filter inv U lb ub tol_mesh X xmi proj cons) -> In r V).
+Proof.
+  intros XT inv U lb ub tol_mesh X xmi proj cons Hb V.
+  destruct (order_of_steps_is_source XT inv U lb ub tol_mesh X xmi proj cons) as [E1 [E2 [E3 [E4 [E5 _]]]]].
+  assert (HV : V = filter_candidates proj lb ub tol_mesh (py_prefix (xmi + 1) X) None U).
+  { unfold V. rewrite E1, E2, E3. reflexivity. }
+  split; [rewrite HV; apply filter_in_box; exact Hb|].
+  split; [exact E5|].
+  split.
+  - intros c Hc. subst cons. destruct src_stages_are_model as [_ [_ [_ S4]]]. rewrite S4. reflexivity.
+  - intros r Hr. rewrite E5 in Hr. fold V in Hr. rewrite E4 in Hr. eapply keep_feasible_In. exact Hr.
+Qed.
